@@ -1,8 +1,10 @@
 package exec
 
 import (
+	"bytes"
 	"fmt"
 	"math/rand"
+	"strings"
 
 	"verifharness/tr"
 
@@ -57,10 +59,34 @@ func (e *scEnv) mk(tok string) statecache.Value {
 		fn := util.NewFullNode(&util.SecureSerializableValue{Buffer: []byte(tok)})
 		fn.PutChild('3', []byte("0123456789abcdef0123456789abcdef"))
 		return fn
+	case "fullnv":
+		// a branch WITHOUT a value: the token lives in a child key
+		fn := util.NewFullNode(nil)
+		fn.PutChild('3', []byte("0123456789abcdef0123456789abcdef"))
+		fn.PutChild('5', padTok(tok))
+		return fn
+	case "ext":
+		return util.NewExtensionNode(util.Path("ab"+tok), util.Key(padTok(tok)))
 	case "string":
 		return statecache.String(tok)
 	default:
 		return &MutVal{B: []byte(tok)}
+	}
+}
+
+// padTok spreads a token over a 32-byte key.
+func padTok(tok string) []byte {
+	b := bytes.Repeat([]byte{'.'}, 32)
+	copy(b, tok)
+	return b
+}
+
+func unpadTok(b []byte) string { return strings.TrimRight(string(b), ".") }
+
+// scribble overwrites a byte slice IN PLACE (whoever shares its backing array sees it).
+func scribble(b []byte) {
+	for i := range b {
+		b[i] = 'Z'
 	}
 }
 
@@ -79,19 +105,27 @@ func (e *scEnv) mutate(v statecache.Value) {
 			}
 		}
 		x.SetValue(&util.SecureSerializableValue{Buffer: []byte("MUT")})
-		for i := range x.Path {
-			x.Path[i] = 'f'
-		}
+		scribble(x.Path)
+		scribble(x.Prefix)
 	case *util.FullNode:
+		hadValue := x.HasValue()
 		if vn := x.Value; vn != nil {
 			if ssv, ok := vn.Value.(*util.SecureSerializableValue); ok {
-				for i := range ssv.Buffer {
-					ssv.Buffer[i] = 'Z'
-				}
+				scribble(ssv.Buffer)
 			}
 		}
-		x.SetValue(&util.SecureSerializableValue{Buffer: []byte("MUT")})
+		if hadValue {
+			x.SetValue(&util.SecureSerializableValue{Buffer: []byte("MUT")})
+		}
+		// first in place (a copy that shares the child keys' bytes is hit), then replaced
+		for i := range x.Children {
+			scribble(x.Children[i])
+		}
 		x.Children[3] = []byte("ffffffffffffffffffffffffffffffff")
+	case *util.ExtensionNode:
+		scribble(x.Path)
+		scribble(x.NodeKey)
+		x.Path = util.Path("ff")
 	}
 }
 
@@ -108,7 +142,15 @@ func (e *scEnv) tok(v statecache.Value) string {
 		if string(x.Children[3]) != "0123456789abcdef0123456789abcdef" {
 			return "CORRUPT-CHILD"
 		}
+		if !x.HasValue() {
+			return unpadTok(x.Children[5])
+		}
 		return string(x.GetValueBytes())
+	case *util.ExtensionNode:
+		if len(x.Path) < 2 || string(x.Path[:2]) != "ab" || string(x.Path[2:]) != unpadTok(x.NodeKey) {
+			return "CORRUPT-EXT"
+		}
+		return unpadTok(x.NodeKey)
 	case statecache.String:
 		return string(x)
 	case nil:
@@ -204,7 +246,7 @@ func RunSCHistory(w *tr.Writer, st *SCStats, tid int, h SCHist) {
 // GenSCHistory draws a random block-tree history.
 func GenSCHistory(r *rand.Rand, long bool) SCHist {
 	h := SCHist{Small: !long}
-	h.ValType = []string{"mut", "leaf", "mut", "full", "string"}[r.Intn(5)]
+	h.ValType = []string{"mut", "leaf", "mut", "full", "string", "fullnv", "ext"}[r.Intn(7)]
 	keys := []string{"k1", "k2", "k3"}[:1+r.Intn(3)]
 	vals := []string{"a", "b", "c", "d"}
 	type blk struct{ obj, hash, prev string }
